@@ -276,6 +276,12 @@ static int do_out(const char *name, int argc, char **argv)
     char p[4096];
     snprintf(p, sizeof p, "%s", vpdir_path("out", id));
     copy_file_to_fd(p, 1);
+    snprintf(p, sizeof p, "%s", vpdir_path("late", id));
+    if (access(p, F_OK) == 0) {
+        /* a program that is done with its output, closes it, and complains a little later */
+        close(1);
+        usleep(150000);
+    }
     snprintf(p, sizeof p, "%s", vpdir_path("err", id));
     copy_file_to_fd(p, 2);
     snprintf(p, sizeof p, "%s", vpdir_path("rc", id));
